@@ -1,5 +1,34 @@
-(** C09 -- placeholder while the proofs are built *)
-From RL Require Import Model.Decode.
-Theorem C09_placeholder : m_decode strict_opts [] = Val (Err [IncompleteFlags], []).
-Proof. reflexivity. Qed.
-Print Assumptions C09_placeholder.
+(** C09 -- Encoding only appends: what the writer already holds is untouched,
+    the appended octets do not depend on the position, sequences concatenate,
+    and every positional overwrite lies inside the value being encoded. *)
+From RL Require Import Model.Encode Spec.SpecEncode Proofs.RefineEncode Proofs.EncodeFacts.
+
+Theorem C09_prefix_independent : forall v p, m_encode v p = omap (app p) (m_encode v []).
+Proof. exact prefix_independent. Qed.
+
+Theorem C09_sequence : forall vs w, forallb encodable vs = true ->
+  m_encode_all_w vs w =
+  Val (mkw (w_data w ++ concat (map s_encode vs)) (w_log w ++ msgs_log (w_len w) vs)).
+Proof. exact encode_sequence. Qed.
+
+Theorem C09_overwrites_inside : forall v p w', m_encode_w v (writer_of p) = Val w' ->
+  w_data w' = p ++ s_encode v /\
+  Forall (entry_inside (len p) (len (w_data w'))) (w_log w').
+Proof. exact overwrites_inside. Qed.
+
+(** per AVP: the single overwrite is the AVP's own first two octets *)
+Theorem C09_avp_overwrite : forall a w, avp_fits a = true ->
+  m_enc_avp_w a w = Val (mkw (w_data w ++ s_enc_avp a)
+                             (w_log w ++ [(w_len w, 2, w_len w + len (s_enc_avp a))])).
+Proof. intros a w F. rewrite enc_avp_ok by exact F. rewrite len_s_enc_avp. reflexivity. Qed.
+
+Example C09_example :
+  omap w_log (m_encode_w (Control {| c_length := 0; c_tunnel := 1; c_session := 2; c_ns := 3; c_nr := 4;
+                       c_avps := [AMessageType Hello] |}) (writer_of [9; 9; 9]))
+  = Val [(15, 2, 23); (5, 2, 23)].
+Proof. vm_compute. reflexivity. Qed.
+
+Print Assumptions C09_prefix_independent.
+Print Assumptions C09_sequence.
+Print Assumptions C09_overwrites_inside.
+Print Assumptions C09_avp_overwrite.
